@@ -37,4 +37,7 @@ CoordVal(c) == IF Len(c) = 1 THEN Num(c[1], SCALE) ELSE Tup([i \in 1..Len(c) |->
 IsIntegralScaled(v) == (v.n * SCALE) % v.d = 0
 ScaledOf(v) == (v.n * SCALE) \div v.d
 ValCoord(v) == IF v.k = "num" THEN <<ScaledOf(v)>> ELSE [i \in 1..Len(v.v) |-> ScaledOf(v.v[i])]
+(* keyword argument of a call expression of HF-IR, or the marker [e |-> "absent"] *)
+Kw(call, name) == LET S == {i \in 1..Len(call.kw) : call.kw[i].k = name} IN
+                  IF S = {} THEN [e |-> "absent"] ELSE call.kw[CHOOSE i \in S : TRUE].v
 =============================================================================
